@@ -67,7 +67,7 @@ func cmdVC(args []string) int {
 				fmt.Fprintln(os.Stderr, "no such obligation")
 				return 2
 			}
-			d := &Discharger{Timeout: *timeout, Workers: 8}
+			d := &Discharger{Timeout: *timeout, Workers: 6}
 			t1 := time.Now()
 			d.Discharge(vc, vc.obligations)
 			total, ok, failed := summarize(vc.obligations)
@@ -76,12 +76,13 @@ func cmdVC(args []string) int {
 				fmt.Println("  UNSUPPORTED:", u)
 				rc = 2
 			}
+			if vacuousFunction(vc.obligations) {
+				fmt.Println("  VACUOUS: no exit of the function is reachable under its preconditions and invariants")
+				rc = 1
+			}
 			for _, ob := range vc.obligations {
 				if ob.Cover {
-					if ob.Res.Status == "unsat" {
-						fmt.Println("  VACUOUS:", shortStatus(ob))
-						rc = 1
-					} else if *verbose {
+					if *verbose {
 						fmt.Println("  cover ", shortStatus(ob))
 					}
 					continue
@@ -118,4 +119,18 @@ func indexOf(s, sub string) int {
 		}
 	}
 	return -1
+}
+
+// vacuousFunction: every cover query (one per return / exit point) is unsat.
+func vacuousFunction(obs []*Obligation) bool {
+	n, dead := 0, 0
+	for _, ob := range obs {
+		if ob.Cover {
+			n++
+			if ob.Res.Status == "unsat" {
+				dead++
+			}
+		}
+	}
+	return n > 0 && dead == n
 }
